@@ -1,8 +1,14 @@
 """Source of MANIFEST.json (bin/mkmanifest writes it).  One entry per claimed property."""
 
-HOOK_COMMITS = ["ed224dc"]
+HOOK_COMMITS = ["ed224dc", "bc3b859"]
 
 ENGINES = [
+    {"name": "codec", "path": "specs/HcobsFormat.tla specs/HcobsCodec.tla specs/HcobsMC.tla specs/HcobsTrace.tla "
+     "lib/engines/codec.py harness/src/codec.rs",
+     "serves_properties": ["C01", "C02", "C07", "C09"],
+     "kind_free_text": "pure TLA+ definition of the HCOBS wire format (RefEncode/RefDecode) + transcription of EncoderState/"
+     "DecoderState; TLC design MC over all inputs and segmentations (tiny limits), edge-cover replay through hook H3, TLC "
+     "evaluation of the format on bytes recorded from the real Encoder/Decoder at production limits"},
     {"name": "deque", "path": "specs/Deque.tla specs/DequeMC.tla specs/DequeTrace.tla specs/Sorted.tla "
      "specs/SortedMC.tla specs/SortedTrace.tla lib/engines/deque.py harness/src/deque.rs",
      "serves_properties": ["C15", "C16"],
@@ -11,7 +17,57 @@ ENGINES = [
      "containers, TLC trace validation of every recorded event"},
 ]
 
+CODEC_NOTE = ("Bounded: exhaustive only for inputs <= 6 (encoder, alphabet {FE,FD,x}) / <= 4 (decoder, 8-9 header/boundary "
+              "symbols) per tiny limit pair in the quick tier (8 / 5 and four limit pairs in thorough); production limits by "
+              "validated samples shaped around the 252 / 64260 / 128268 boundaries. Trusts hook H3 (LimitEncoder/LimitDecoder "
+              "call the same EncoderState/DecoderState code with other limits; the production runs go through the real "
+              "Encoder/Decoder glue), TLC's evaluation of the format definition, the harness's recording.")
+
 CHECKS = {
+    "C01": {
+        "engine": "codec",
+        "technique": "TLA+ format spec + TLC model checking of the transcribed codec; edge-cover replay (hook H3) and TLC trace validation of real Encoder->Decoder round trips",
+        "text": "HcobsFormat.tla defines the wire format as pure RefEncode/RefDecode; TLC checks RefDecode(RefEncode(s)) = s and that the "
+                "transcribed encoder state machine equals RefEncode for all inputs and all segmentations within bounds. Every edge of those "
+                "graphs is replayed on the real state machines through hook H3 as Encoder->Decoder round trips (all four input methods, random "
+                "drains), plus seeded random tiny-limit round trips and production-limit round trips (real Encoder/Decoder) with FE/FD planted "
+                "around every chunk boundary; TLC validates each recorded run: decoder result = encoder input, and RefDecode(encoder output) = input.",
+        "design_ref": "DESIGN.md section 6, C01/C02/C07",
+        "note": CODEC_NOTE,
+    },
+    "C02": {
+        "engine": "codec",
+        "technique": "TLA+ format spec + TLC model checking; TLC trace validation of real encoder outputs (stuff-free, split-independent, bounded)",
+        "text": "TLC checks on the transcribed encoder: output = RefEncode(input) for every segmentation (=> a function of the input only), no FE FD, "
+                "length <= len+1+2*ceil(len/L2), for all inputs within bounds. On the real code (H3 edge cover, random tiny-limit runs, production "
+                "runs) TLC validates for every recorded run: complete output (drained ++ finish) has no FE FD anywhere, satisfies the bound with the "
+                "literal constant 64008, and equals the output of every other run with the same input (different segmentation / method / drains).",
+        "design_ref": "DESIGN.md section 6, C01/C02/C07",
+        "note": CODEC_NOTE,
+    },
+    "C07": {
+        "engine": "codec",
+        "technique": "TLA+ format spec evaluated by TLC on recorded bytes (literal 252/64008/253); TLC model checking of transcribed encoder and decoder",
+        "text": "The canonical format is a TLA+ definition independent of the code's constants. TLC checks the transcribed encoder = RefEncode and the "
+                "transcribed decoder = RefDecode (verdict and bytes) for all strings and segmentations within bounds; on the real code TLC evaluates "
+                "RefEncode/RefDecode on every recorded encoder output and every decoder input (valid, truncated at every position, corrupted headers, "
+                "alias encodings that only a skipped header check would accept, garbage), byte-at-a-time / one call / random pieces, and compares "
+                "verdict and bytes; panics are violations.",
+        "design_ref": "DESIGN.md section 6, C01/C02/C07",
+        "note": CODEC_NOTE,
+    },
+    "C09": {
+        "engine": "codec",
+        "technique": "TLC trace validation of streaming observations (prefix/lag monitors in TLA+); TLC invariant on the transcribed encoder",
+        "text": "Design: TLC checks that what is consumable mid-stream in the transcribed encoder (everything before the pending header) is a prefix of "
+                "RefEncode of every extension. Real code: after every feed and drain of every codec run the trace records total_size, consumable bytes "
+                "(content too for small runs), and for each drain (consume / advance_slices / Read with amounts below, at and far above what is "
+                "consumable) the bytes removed and the reported count; TLC checks: observed bytes never change and are a prefix of drained++finish, "
+                "each drain removes exactly what it reports, lag <= 1 MiB + L2 + 2 for encoders and 0 (no pending backpatch) for decoders, finish leaves "
+                "nothing pending.",
+        "design_ref": "DESIGN.md section 6, C09",
+        "note": CODEC_NOTE + " The lag bound over unbounded stream lengths is checked on streams up to ~130 KB here and on long streams by the C10 streaming part.",
+    },
     "C15": {
         "engine": "deque",
         "technique": "TLA+ spec + TLC model checking; spec-graph edge-cover replay and TLC trace validation against the real SlidingDeque",
